@@ -208,6 +208,31 @@ class CFG:
             return True
         return id(b) in self.reachable(a, avoiding=avoiding)
 
+    def exists_path_assuming(self, a, b, avoiding=(), assumed=()):
+        """Path a -> b avoiding nodes, on which every test node listed in `assumed`
+        (pairs (test Node, bool)) takes only its edge with that label.  Used to discard paths
+        that are infeasible because two tests of one immutable condition disagree."""
+        if a is b:
+            return True
+        fixed = dict((id(t), pol) for (t, pol) in assumed)
+        avoid = set(id(x) for x in avoiding)
+        seen = {id(a)}
+        todo = [a]
+        while todo:
+            n = todo.pop()
+            for (m, lab) in n.succ:
+                if lab == 'assert':
+                    continue
+                if id(n) in fixed and lab in (True, False) and lab != fixed[id(n)]:
+                    continue
+                if id(m) in avoid or id(m) in seen:
+                    continue
+                if m is b:
+                    return True
+                seen.add(id(m))
+                todo.append(m)
+        return False
+
     def live_nodes(self):
         r = self.reachable(self.entry)
         return [n for n in self.nodes if id(n) in r]
